@@ -40,3 +40,7 @@ int docall (int k, int st, mixed a, mixed b) {
 int act (string arg, mixed a, mixed b) { return 1; }
 void doact (int k, mixed a, mixed b) { add_action ("act", "verb" + k, 0, a, b); }
 void rmact (int k) { remove_action ("act", "verb" + k); }
+
+// input_to callback with two carry-over arguments (the harness sets command_giver to the interactive user)
+void icb (string str, mixed a, mixed b) { }
+void doinput (mixed a, mixed b) { input_to ("icb", 0, a, b); }
